@@ -21,7 +21,9 @@ from typing import Any, Callable, Iterable, Optional
 VERIF = Path(__file__).resolve().parent.parent
 LEAN = VERIF / "lean"
 REPO = Path(os.environ.get("VERIF_REPO", "/repo"))
-EVIDENCE = VERIF / "evidence"
+# evidence/ is only ever written by runs against /repo itself: runs against a scratch checkout (VERIF_REPO) write elsewhere
+EVIDENCE = Path(os.environ["VERIF_EVIDENCE_DIR"]) if os.environ.get("VERIF_EVIDENCE_DIR") else (
+    VERIF / "evidence" if not os.environ.get("VERIF_REPO") else VERIF / "replays" / "evidence_scratch")
 REPLAYS = VERIF / "replays"
 CORPUS = VERIF / "corpus"
 GUARD = "PASQAL_IO_EMULATORS_VERIF"
@@ -247,8 +249,8 @@ class Report:
 
     # -- output
     def finish(self) -> int:
-        EVIDENCE.mkdir(exist_ok=True)
         REPLAYS.mkdir(exist_ok=True)
+        EVIDENCE.mkdir(parents=True, exist_ok=True)
         known = load_known_findings()
         known_for = [k for k in known if k.get("property") == self.prop and k.get("status", "open") == "open"]
         new_fail, seen_known = [], {}
